@@ -27,6 +27,10 @@ FAULTS = {
     "s-goto-nolabel": ([], [], "GOTO", []),
     "s-open-call": ([], [], "PRINT LEN(", []),
     "s-bad-assign": ([], [], "V% = = 1", []),
+    # a string literal that is not closed ends with its line (the text of the following lines stays where it is)
+    "s-open-quote": ([], [], 'PRINT "first', []),
+    "s-open-quote-2": ([], [], 'S9$ = "a" + "b', []),
+    "s-open-quote-if": ([], [], 'IF S9$ = "a THEN V% = 1', []),
     # static: type mismatch
     "t-assign-str": ([], [], 'V% = "x"', []),
     "t-assign-num": ([], [], "S9$ = 5", []),
